@@ -758,7 +758,15 @@ impl VectoredIO {
                 continue;
             }
             match writer.write(buf) {
-                Ok(n) => total += n,
+                Ok(n) => {
+                    total += n;
+                    // A short write leaves the tail of this buffer unwritten; writing the next
+                    // buffer would put its bytes in the wrong place and lose the tail, while
+                    // the contract is that the first `total` bytes of the buffers were written.
+                    if n < buf.len() {
+                        break;
+                    }
+                }
                 Err(e) => return if total > 0 { Ok(total) } else { Err(e) },
             }
         }
